@@ -37,9 +37,9 @@ def _step(name, key):
         raise ValueError(f"{name} failed", n)
     return n
 
-def leaf(x: int) -> int:
+def leaf(x: int):
     _step("leaf", x)
-    return x * 10
+    return None if PLAN.get("ret_none") else x * 10
 
 def root(x: int) -> int:
     n = _step("root", x)
@@ -47,9 +47,15 @@ def root(x: int) -> int:
     total = x
     APPX = PLAN["app"]
     if shape == 1:
-        total += APPX["leaf"](1).result
+        child = APPX["leaf"](1)
+        r = child.result
+        if PLAN.get("double_read"):
+            r = child.result           # reading a result again must not execute the child again
+        total += r or 0
     elif shape == 2:
-        total += sum(APPX["leaf"].parallelize([(1,), (2,)]).results)
+        total += sum((v or 0) for v in APPX["leaf"].parallelize([(1,), (2,)]).results)
+    if PLAN.get("ret_none") and shape == 0:
+        return None
     return total
 
 class InlineRunner(DummyRunner):
@@ -75,12 +81,12 @@ class InlineRunner(DummyRunner):
     def _waiting_for_results(self, running_invocation_id, result_invocation_ids, runner_args=None):
         self.work_once()
 
-def execute(mode, shape, max_retries, root_script, leaf_script, direct):
+def execute(mode, shape, max_retries, root_script, leaf_script, direct, ret_none=False, double_read=False):
     """mode: 'sync' | 'mem' | 'sqlite'. Returns (outcome, counts, retries)"""
     reset_uuid()
     COUNT.clear()
     PLAN.clear()
-    PLAN.update({"root": root_script, "leaf": leaf_script, "shape": shape})
+    PLAN.update({"root": root_script, "leaf": leaf_script, "shape": shape, "ret_none": ret_none, "double_read": double_read})
     kind = "mem" if mode in ("sync", "mem") else "sqlite"
     app = mk_app(kind, app_id="c19" + mode, dev_mode_force_sync_tasks=(mode == "sync"), cached_status_time=0.0,
                  invocation_wait_results_sleep_time_sec=0.0)
@@ -104,6 +110,8 @@ def execute(mode, shape, max_retries, root_script, leaf_script, direct):
         else:
             inv = root_t(5)
             val = inv.result
+            if double_read:
+                val = inv.result       # a second read of the same result
             retries = inv.num_retries
         out = ("value", val)
     except Exception as e:
@@ -111,13 +119,13 @@ def execute(mode, shape, max_retries, root_script, leaf_script, direct):
         retries = None
     return out, dict(COUNT), retries
 
-def program(shape, max_retries, r1, r2, r3, l1, l2, direct):
+def program(shape, max_retries, r1, r2, r3, l1, l2, direct, ret_none=False, double_read=False):
     global LAST_DETAIL
     root_script = [r1, r2, r3, 0]
     leaf_script = [l1, l2, 0]
     res = {}
     for mode in ("sync", "mem", "sqlite"):
-        res[mode] = execute(mode, shape, max_retries, root_script, leaf_script, direct)
+        res[mode] = execute(mode, shape, max_retries, root_script, leaf_script, direct, ret_none, double_read)
     def fail(why):
         global LAST_DETAIL
         LAST_DETAIL = {"shape": shape, "max_retries": max_retries, "root_script": [ACT[a] for a in root_script], "leaf_script": [ACT[a] for a in leaf_script],
@@ -143,7 +151,7 @@ def program(shape, max_retries, r1, r2, r3, l1, l2, direct):
         if shape == 0:
             if first_non_retry <= max_retries + 1:
                 exp_n = first_non_retry
-                exp_out = ("value", 5) if root_script[first_non_retry - 1] == 0 else ("raised", "ValueError", ("root failed", first_non_retry))
+                exp_out = ("value", None if ret_none else 5) if root_script[first_non_retry - 1] == 0 else ("raised", "ValueError", ("root failed", first_non_retry))
             else:
                 exp_n = max_retries + 1
                 exp_out = ("raised", "RetryError", (f"root retry {max_retries + 1}",))
@@ -154,20 +162,23 @@ def program(shape, max_retries, r1, r2, r3, l1, l2, direct):
     LAST_DETAIL = {"results": {k: str(v) for k, v in res.items()}}
     return True
 
-def go(shape, max_retries, r1, r2, r3, l1, l2, direct):
+def go(shape, max_retries, r1, r2, r3, l1, l2, direct, flags=0):
     shape = pick(shape, 0, 2); max_retries = pick(max_retries, 0, 3)
     r1 = pick(r1, 0, 2); r2 = pick(r2, 0, 2); r3 = pick(r3, 0, 2); l1 = pick(l1, 0, 2); l2 = pick(l2, 0, 2); direct = pick(direct, 0, 1)
+    flags = pick(flags, 0, 3)
     with NoTracing():
-        return program(shape, max_retries, r1, r2, r3, l1, l2, bool(direct))
+        return program(shape, max_retries, r1, r2, r3, l1, l2, bool(direct), bool(flags & 1), bool(flags & 2))
 '''
 
 F = r'''
-def prog_s__S___m__M__(r1: int, r2: int, r3: int, l1: int, l2: int, direct: int) -> bool:
+def prog_s__S___m__M__(r1: int, r2: int, r3: int, l1: int, l2: int, direct: int, flags: int) -> bool:
     """
     pre: 0 <= r1 <= 2 and 0 <= r2 <= 2 and 0 <= r3 <= 2 and 0 <= l1 <= __LMAX__ and 0 <= l2 <= __LMAX__ and 0 <= direct <= 1
+    pre: 0 <= flags <= __FMAX__
     post: _
     """
-    return go(__S__, __M__, r1, r2, r3, l1, l2, direct)
+    # flags: bit 0 = bodies return None, bit 1 = results are read twice (single-child shape and client)
+    return go(__S__, __M__, r1, r2, r3, l1, l2, direct, flags)
 '''
 
 EXTRA = r'''
@@ -203,7 +214,7 @@ def run(ctx: Ctx) -> None:
     conds = []
     for s in range(3):
         for m in range(4):
-            f = F.replace("__S__", str(s)).replace("__M__", str(m)).replace("__LMAX__", "0" if s == 0 else "2")
+            f = F.replace("__S__", str(s)).replace("__M__", str(m)).replace("__LMAX__", "0" if s == 0 else "2").replace("__FMAX__", "3" if s <= 1 else "1")
             src += f
             conds.append(Cond(f"prog_s{s}_m{m}", "confirm", 1500, keyfn=_key_from_replay))
     src += EXTRA
@@ -213,7 +224,7 @@ def run(ctx: Ctx) -> None:
                               "DistributedInvocation.run/result, DistributedInvocationGroup.results", "BaseOrchestrator.set_invocation_retry/get_invocations_to_run/route_call",
                               "Pynenc.direct_task wrapper"]
     ctx.bounds = {"programs": "root script of 3 attempts over {return, raise retriable, raise non-retriable}; max_retries 0..3; child shape none / single / parallelized group of 2 "
-                              "with a 2-attempt child script (child max_retries 1); plain or direct-task root",
+                              "with a 2-attempt child script (child max_retries 1); plain or direct-task root; bodies returning values or None; results read once or twice",
                   "modes": "sync (dev_mode_force_sync_tasks), distributed on the in-memory stack, distributed on the SQLite stack"}
     ctx.stubs += ["InlineRunner: single-thread stand-in for the runner; its worker step = the persistent-process worker loop body (get_invocations_to_run(1) then invocation.run); "
                   "waiting for a result runs that step inline", "cached_status_time=0, wait sleep 0", "sync history threads, counter clock"]
